@@ -2,6 +2,7 @@
    Builders' lexical contracts + the application algebra; "still parses" itself is delegated to the real
    parser in the correspondence stage (tools/props_c13.py).  `_refuted` = the current code is defective. *)
 From V Require Import Text.FixApply Text.FixBuilders.
+From Coq Require Import String.
 Open Scope N_scope.
 
 (* ---------------- application algebra (byte level; A = N bytes) *)
@@ -81,6 +82,23 @@ Theorem C13_boolean_fix_result : forall pre name rest post,
   = Some (utf8 (pre ++ name ++ post)).
 Proof. exact boolean_fix_result. Qed.
 Print Assumptions C13_boolean_fix_result.
+
+Theorem C13_boolean_fix_glues_refuted :
+  exists pre name rest post,
+    pre ++ name ++ rest ++ post = s2l "<Foo a:b={true}c:d />" /\
+    apply_fix (utf8 (pre ++ name ++ rest ++ post))
+      [ch_bytes (boolean_change (Some (bytes (pre ++ name))) (bytes (pre ++ name)) (bytes (pre ++ name) + bytes rest))]
+    = Some (utf8 (s2l "<Foo a:bc:d />")).
+Proof. exact boolean_fix_glues_refuted. Qed.
+Print Assumptions C13_boolean_fix_glues_refuted.
+
+Theorem C13_boolean_fix_repaired_separated : forall pre name rest c post,
+  glued_next (Some c) = true ->
+  apply_fix (utf8 (pre ++ name ++ rest ++ c :: post))
+            [ch_bytes (boolean_change_repaired (Some (bytes (pre ++ name))) (bytes (pre ++ name)) (bytes (pre ++ name) + bytes rest) (Some c))]
+  = Some (utf8 (pre ++ name ++ 32 :: c :: post)).
+Proof. exact boolean_fix_repaired_separated. Qed.
+Print Assumptions C13_boolean_fix_repaired_separated.
 
 (* ---------------- jsx-props-no-spread-multi *)
 Theorem C13_spread_fix_range_ok : forall pre w spread post,
